@@ -9,8 +9,7 @@
          notes of that channel - failures go to `fails`;
      (C) the write is compared with the model of OPN2::noteOn (ModelAgrees) - mismatches go to `drift`.
    A sweep record carries one entry per value (bend value or key) and is consumed point by point.
-   Records without a field "o" (the Crash record of a call that did not return) are skipped: the
-   pipeline reports them.
+   The Crash record of a call that did not return (no field "w") is skipped: the pipeline reports it.
 
    Reading of the property that is built in here:
      * bend range = RPN 0 (CC101 = 0, CC100 = 0), CC6 = semitones, CC38 = 1/128 semitone; the range of a
@@ -311,7 +310,8 @@ StepPoint(ev) ==
 Next ==
   \/ /\ l <= Len(T)
      /\ LET ev == T[l] IN
-        IF "o" \notin DOMAIN ev THEN l' = l + 1 /\ pi' = 0 /\ UNCHANGED <<st, fails, cnt, drift, exec>>
+        IF "o" \notin DOMAIN ev \/ (ev.o \notin {"init", "end", "sweep"} /\ "w" \notin DOMAIN ev)      \* Crash record
+        THEN l' = l + 1 /\ pi' = 0 /\ UNCHANGED <<st, fails, cnt, drift, exec>>
         ELSE CASE ev.o = "init" -> l' = l + 1 /\ pi' = 0 /\ StepInit(ev)
                [] ev.o = "end" -> l' = l + 1 /\ pi' = 0 /\ UNCHANGED <<st, fails, cnt, drift, exec>>
                [] ev.o = "sweep" -> StepPoint(ev)
